@@ -1527,6 +1527,27 @@ M("C08", "R-stock-index-inlined", SFF,
         stocks_at_start_of_month = end_of_month_stocks[month_before_index]''',
   '''        stocks_at_start_of_month = end_of_month_stocks[starting_month_index - 1]''', None)
 
+M("C08", "greenhouse-yield-uses-previous-month-ratio", GHF,
+  '''            baseline_reduction = all_months_reductions[i]
+
+            # Check if baseline''', '''            baseline_reduction = all_months_reductions[max(i - 1, 0)]
+
+            # Check if baseline''', "C08.FORM")
+M("C08", "greenhouse-yield-not-per-hectare", GHF,
+  '''        MONTHLY_KCALS = np.mean(months_cycle) / self.TOTAL_CROP_AREA''', '''        MONTHLY_KCALS = np.mean(months_cycle)''', "C08.FORM")
+M("C08", "greenhouse-retail-waste-dropped", GHF,
+  '''            CROP_WASTE_COEFFICIENT = (
+                1 - constants_for_params["WASTE_DISTRIBUTION"]["CROPS"] / 100
+            ) * (1 - constants_for_params["WASTE_RETAIL"] / 100)''', '''            CROP_WASTE_COEFFICIENT = (
+                1 - constants_for_params["WASTE_DISTRIBUTION"]["CROPS"] / 100
+            )''', "C08.FORM")
+M("C08", "greenhouse-gain-as-fraction", GHF,
+  '''                * (1 + constants_for_params["GREENHOUSE_GAIN_PCT"] / 100)''', '''                * (1 + constants_for_params["GREENHOUSE_GAIN_PCT"])''', "C08.FORM")
+M("C08", "greenhouse-fat-times-area-of-kcals-lane", PARF,
+  '''            fat=np.multiply(greenhouse_fat_per_ha, greenhouse_area),''', '''            fat=np.multiply(greenhouse_kcals_per_ha, greenhouse_area),''', "C08.FORM")
+M("C08", "R-greenhouse-monthly-kcals-renamed", GHF,
+  '''        MONTHLY_KCALS = np.mean(months_cycle) / self.TOTAL_CROP_AREA''', '''        per_ha = np.mean(months_cycle)
+        MONTHLY_KCALS = per_ha / self.TOTAL_CROP_AREA''', None)
 # ---------------------------------------------------------------------------- C09
 M("C09", "revert-F3-no-relocation-arm-forgets-greenhouses", OCF,
   '''                crops_produced = np.multiply(
